@@ -11,7 +11,9 @@
    Invariant OI (over every elementary kernel operation, not only whole steps): for u1 < u2 of one address, either u2 is a
    ghost (unregistered, holds nothing, has handled nothing) or u1 is unregistered and everything u1 holds or has handled is
    below everything u2 holds or has handled; every number held is at most the counter; RI (Kernel.Registry).
-   H0 v = what v has handled so far ++ the number of its in-flight user message: constant while one message is processed. *)
+   H0 v = what v has handled so far ++ the number of its in-flight user message: constant while one message is processed.
+   Second part (relation nr, from ANY state): an object registered under no address has nothing appended to its mailbox by
+   any kernel operation and stays unregistered (unregistered_receives_nothing_step, unregistered_object_receives_nothing). *)
 From MV Require Import Lib.ListX Kernel.Model Kernel.Run Kernel.Lifecycle Kernel.Status Kernel.Registry Kernel.Frame Kernel.Queue Kernel.Launch Kernel.Held Kernel.Order.
 Open Scope Z_scope.
 
@@ -666,3 +668,351 @@ Theorem handled_order_across_reuse : forall roles ls s os u1 u2 a1 a2,
   get s u1 = Some a1 -> get s u2 = Some a2 -> a_tok a1 = a_tok a2 -> (u1 < u2)%nat ->
   forall x y, In x (trace u1 ls os) -> In y (trace u2 ls os) -> (x < y)%nat.
 Proof. exact handled_order_across_reuse_run. Qed.
+
+(* ---------- who can receive: an object registered under no address gets nothing, from ANY state ---------- *)
+(* through every kernel operation: an unregistered object stays unregistered (registry entries are only added for NEW uids)
+   and its user queue and in-flight slot are untouched (user messages are resolved through the registry) *)
+Definition nr (s s' : kstate) : Prop :=
+  forall v a, get s v = Some a -> unregA s v ->
+    exists a', get s' v = Some a' /\ a_inflight a' = a_inflight a /\ a_userq a' = a_userq a /\ unregA s' v.
+Lemma nr_refl s : nr s s. Proof. intros v a G U. exists a. auto. Qed.
+Lemma nr_trans s1 s2 s3 : nr s1 s2 -> nr s2 s3 -> nr s1 s3.
+Proof.
+  intros A B v a G U. destruct (A v a G U) as (a2 & G2 & I2 & Q2 & U2). destruct (B v a2 G2 U2) as (a3 & G3 & I3 & Q3 & U3).
+  exists a3. split; [exact G3|split; [congruence|split; [congruence|exact U3]]].
+Qed.
+Lemma nr_same s s' : actors s' = actors s -> registry s' = registry s -> serial s' = serial s -> nr s s'.
+Proof.
+  intros A Rg _ v a G U. exists a. unfold get in *. rewrite A. split; [exact G|split; [reflexivity|split; [reflexivity|]]].
+  intros t. rewrite Rg. apply U.
+Qed.
+Lemma nr_put s w a0 bb : get s w = Some a0 -> (~ unregA s w \/ (a_inflight bb = a_inflight a0 /\ a_userq bb = a_userq a0)) -> nr s (put s w bb).
+Proof.
+  intros Hw Hc v a G U. change (unregA (put s w bb) v) with (unregA s v). destruct (Nat.eq_dec w v) as [->|Hne].
+  - destruct Hc as [Hc|[Hi Hq]]; [contradiction|]. rewrite Hw in G. inversion G; subst a. exists bb. split; [eapply get_put_same; exact Hw|auto].
+  - exists a. split; [rewrite get_put_other by exact Hne; exact G|auto].
+Qed.
+Lemma nr_upd_actor s w f : (forall a, a_inflight (f a) = a_inflight a /\ a_userq (f a) = a_userq a) -> nr s (upd_actor s w f).
+Proof.
+  intros Hf. unfold upd_actor. destruct (get s w) as [a0|] eqn:E; [|apply nr_refl]. eapply nr_put; [exact E|right; apply Hf].
+Qed.
+Lemma nr_push_sys s w e : nr s (push_sys s w e).
+Proof. unfold push_sys. apply nr_upd_actor. intros a. destruct (e_msg e); split; reflexivity. Qed.
+Lemma nr_deliver_sys s t' snd m : nr s (deliver_sys s t' snd m).
+Proof.
+  unfold deliver_sys. destruct (lookup t' (registry s)); [apply nr_push_sys|].
+  destruct m; try apply nr_refl. destruct (lookup snd (registry s)); [apply nr_push_sys|apply nr_refl].
+Qed.
+Lemma nr_to_sub s : nr s (to_sub s).
+Proof.
+  unfold to_sub. destruct (lookup rSub (registry s)) as [u|] eqn:El; [|apply nr_refl]. unfold upd_actor. destruct (get s u) as [a|] eqn:E; [|apply nr_refl].
+  eapply nr_put; [exact E|left]. intros U. exact (U rSub El).
+Qed.
+Lemma nr_abyss_user s snd rcv m s' o : abyss_user s snd rcv m = (s', o) -> nr s s'.
+Proof.
+  unfold abyss_user. destruct m; intros H; inversion H; subst; try apply nr_refl;
+    destruct (rcv =? rSub); try apply nr_refl; apply nr_to_sub.
+Qed.
+Lemma nr_deliver_user s t' snd m s' o : deliver_user s t' snd m = (s', o) -> nr s s'.
+Proof.
+  unfold deliver_user. destruct (lookup t' (registry s)) as [w|] eqn:El; [|apply nr_abyss_user].
+  destruct (get s w) as [a|] eqn:E; [|apply nr_abyss_user].
+  intros H; inversion H; subst. eapply nr_put; [exact E|left]. intros U. exact (U t' El).
+Qed.
+Lemma nr_terminate s self t' g s' o : terminate s self t' g = (s', o) -> nr s s'.
+Proof. unfold terminate. destruct g; [apply nr_deliver_user|]. intros H; inversion H; subst. apply nr_deliver_sys. Qed.
+Lemma nr_next s s1 k : next_serial s = (s1, k) -> nr s s1.
+Proof. unfold next_serial. intros H; inversion H; subst. intros v a G U. exists a. split; [exact G|split; [reflexivity|split; [reflexivity|exact U]]]. Qed.
+Lemma nr_tell s s1 k t' snd n s2 o : next_serial s = (s1, k) -> deliver_user s1 t' snd (UProbe n k) = (s2, o) -> nr s s2.
+Proof. intros En E. eapply nr_trans; [eapply nr_next; exact En|eapply nr_deliver_user; exact E]. Qed.
+Lemma nr_send_each ts : forall s self n k s' o, send_each s self ts n k = (s', o) -> nr s s'.
+Proof.
+  induction ts as [|t' rest IH]; intros s self n k s' o; cbn [send_each].
+  - intros H; inversion H; subst. apply nr_refl.
+  - destruct (deliver_user s t' self (UProbe n k)) as [s1 o1] eqn:E1.
+    destruct (send_each s1 self rest n k) as [s2 o2] eqn:E2. intros H; injection H as <- <-.
+    eapply nr_trans; [eapply nr_deliver_user; exact E1|eapply IH; exact E2].
+Qed.
+Lemma nr_bcast s s1 k self ts n s2 o : next_serial s = (s1, k) -> send_each s1 self ts n k = (s2, o) -> nr s s2.
+Proof. intros En E. eapply nr_trans; [eapply nr_next; exact En|eapply nr_send_each; exact E]. Qed.
+Lemma nr_remove s k : nr s (set_registry s (remove_key k (registry s))).
+Proof.
+  intros v a G U. exists a. split; [exact G|split; [reflexivity|split; [reflexivity|]]].
+  intros t L. cbn [registry set_registry] in L. apply lookup_remove_key in L. exact (U t L).
+Qed.
+Lemma nr_append_ghost s x : a_userq x = [] -> nr s (set_actors s (actors s ++ [x])).
+Proof. intros _ v a G U. exists a. split; [apply get_append_old; exact G|auto]. Qed.
+Lemma nr_append_reg s x : a_userq x = [] -> lookup (a_tok x) (registry s) = None ->
+  nr s (set_registry (set_actors s (actors s ++ [x])) (set_key (a_tok x) (length (actors s)) (registry s))).
+Proof.
+  intros _ _ v a G U. exists a. split; [apply (get_append_old s x); exact G|split; [reflexivity|split; [reflexivity|]]].
+  intros t L. cbn [registry set_registry] in L. apply lookup_set_key in L. destruct L as [[_ E]|L]; [|exact (U t L)].
+  apply get_lt in G. lia.
+Qed.
+
+Section NR.
+Variable roles : list role.
+
+Lemma nr_terminate_all cs : forall s self g s' o, terminate_all s self cs g = (s', o) -> nr s s'.
+Proof.
+  induction cs as [|c rest IH]; intros s self g s' o; cbn [terminate_all].
+  - intros H; inversion H; subst. apply nr_refl.
+  - destruct (terminate s self c g) as [s1 o1] eqn:E1. destruct (terminate_all s1 self rest g) as [s2 o2] eqn:E2.
+    intros H; inversion H; subst. eapply nr_trans; [eapply nr_terminate; exact E1|eapply IH; exact E2].
+Qed.
+Lemma nr_notify_all ws : forall s self, nr s (notify_all s self ws).
+Proof.
+  induction ws as [|w rest IH]; intros s self; cbn [notify_all]; [apply nr_refl|].
+  eapply nr_trans; [|apply IH]. apply nr_deliver_sys.
+Qed.
+Lemma nr_restart_all cs : forall s self, nr s (restart_all s self cs).
+Proof.
+  induction cs as [|c rest IH]; intros s self; cbn [restart_all]; [apply nr_refl|].
+  eapply nr_trans; [|apply IH]. apply nr_deliver_sys.
+Qed.
+Lemma nr_stop s w self t' s' o p : stop_if_parent_gone s w self t' = (s', o, p) -> nr s s'.
+Proof.
+  unfold stop_if_parent_gone. destruct (get s w) as [pa|]; [|intros H; inversion H; subst; apply nr_refl].
+  destruct (not_alive (a_st pa)); [|intros H; inversion H; subst; apply nr_refl].
+  destruct (terminate s self t' (a_graceful pa)) as [s1 o1] eqn:E. intros H; inversion H; subst. eapply nr_terminate; exact E.
+Qed.
+Lemma nr_spawn s w self t' r s' o p : spawn s w self t' r = (s', o, p) -> nr s s'.
+Proof.
+  unfold spawn. destruct (provide s t') as [s1 inst] eqn:Ep.
+  assert (K1 : nr s s1) by (apply nr_same; unfold provide in Ep; inversion Ep; subst; reflexivity).
+  destruct (lookup t' (registry s1)) eqn:El.
+  - intros H; inversion H; subst. eapply nr_trans; [exact K1|apply nr_append_ghost; reflexivity].
+  - intros H. eapply nr_trans; [|eapply nr_stop; exact H]. eapply nr_trans; [exact K1|].
+    eapply nr_trans; [|apply nr_deliver_sys]. eapply nr_trans; [|apply nr_upd_actor; ks].
+    apply (nr_append_reg s1 (new_actor t' self r inst)); [reflexivity|exact El].
+Qed.
+Lemma nr_escalate s w r s' o p : escalate s w r = (s', o, p) -> nr s s'.
+Proof.
+  unfold escalate. destruct (get s w) as [a|]; [|intros H; inversion H; subst; apply nr_refl].
+  destruct (a_parent a =? rNone); intros H; inversion H; subst.
+  - apply nr_same; reflexivity.
+  - apply nr_deliver_sys.
+Qed.
+Lemma nr_report_abnormal s w s' o p : report_abnormal roles s w = (s', o, p) -> nr s s'.
+Proof.
+  unfold report_abnormal. destruct (get s w) as [a|]; [|intros H; inversion H; subst; apply nr_refl].
+  destruct (a_st a); try (intros H; inversion H; subst; apply nr_refl).
+  intros H. apply nr_escalate in H. eapply nr_trans; [|exact H].
+  eapply nr_trans; [|apply nr_deliver_sys]. apply nr_upd_actor; ks.
+Qed.
+Lemma nr_do_action s w snd act s' o p : do_action roles s w snd act = (s', o, p) -> nr s s'.
+Proof.
+  unfold do_action. destruct (get s w) as [a|]; [|intros H; inversion H; subst; apply nr_refl].
+  destruct act.
+  - destruct (next_serial s) as [s1 k] eqn:En. destruct (deliver_user s1 t rNone (UProbe n k)) as [s2 o2] eqn:E.
+    intros H; inversion H; subst. eapply nr_tell; eassumption.
+  - destruct (next_serial s) as [s1 k] eqn:En. destruct (deliver_user s1 t (a_tok a) (UProbe n k)) as [s2 o2] eqn:E.
+    intros H; inversion H; subst. eapply nr_tell; eassumption.
+  - destruct (next_serial s) as [s1 k] eqn:En. destruct (deliver_user s1 snd (a_tok a) (UProbe n k)) as [s2 o2] eqn:E.
+    intros H; inversion H; subst. eapply nr_tell; eassumption.
+  - destruct (next_serial s) as [s1 k] eqn:En. destruct (send_each s1 (a_tok a) (a_children a) n k) as [s2 o2] eqn:E.
+    intros H; inversion H; subst. eapply nr_bcast; eassumption.
+  - destruct (spawn s w (a_tok a) t r) as [[s1 o1] p1] eqn:E. intros H; inversion H; subst. eapply nr_spawn; exact E.
+  - destruct (terminate s (a_tok a) t g) as [s1 o1] eqn:E. intros H; inversion H; subst. eapply nr_terminate; exact E.
+  - intros H; inversion H; subst. apply nr_deliver_sys.
+  - intros H; inversion H; subst. apply nr_deliver_sys.
+  - destruct (report_abnormal roles s w) as [[s1 o1] p1] eqn:E. intros H; inversion H; subst. eapply nr_report_abnormal; exact E.
+  - intros H; inversion H; subst. apply nr_refl.
+Qed.
+Lemma nr_do_actions acts : forall s w snd s' o p, do_actions roles s w snd acts = (s', o, p) -> nr s s'.
+Proof.
+  induction acts as [|act rest IH]; intros s w snd s' o p; cbn [do_actions].
+  - intros H; inversion H; subst. apply nr_refl.
+  - apply (bind_rel nr); [apply nr_trans| |].
+    + intros s1 o1 p1 E. eapply nr_do_action; exact E.
+    + intros s1 s2 o2 p2 E. eapply IH; exact E.
+Qed.
+Lemma nr_handle_q q s w tr k snd s' o p : handle_q roles q s w tr k snd = (s', o, p) -> nr s s'.
+Proof.
+  unfold handle_q. destruct (get s w) as [a|]; [|intros H; inversion H; subst; apply nr_refl].
+  destruct q; [intros H; inversion H; subst; apply nr_refl|].
+  destruct (do_actions roles s w snd (find_rule (rules (role_of roles a)) tr (a_inst a))) as [[s1 o1] p1] eqn:E.
+  intros H; inversion H; subst. eapply nr_do_actions; exact E.
+Qed.
+Lemma nr_handle s w tr k snd s' o p : handle roles s w tr k snd = (s', o, p) -> nr s s'.
+Proof. unfold handle. destruct (get s w); [apply nr_handle_q|intros H; inversion H; subst; apply nr_refl]. Qed.
+
+Lemma nr_try_terminated s w snd s' o p : try_terminated roles s w snd = (s', o, p) -> nr s s'.
+Proof.
+  unfold try_terminated. destruct (get s w) as [a|]; [|intros H; inversion H; subst; apply nr_refl].
+  destruct (a_children a); [|intros H; inversion H; subst; apply nr_refl].
+  destruct (a_st a); try (intros H; inversion H; subst; apply nr_refl).
+  apply (bind_rel nr); [apply nr_trans| |].
+  - intros s1 o1 p1 E. eapply nr_trans; [|eapply nr_handle; exact E]. apply nr_upd_actor; ks.
+  - intros s1 s2 o2 p2.
+    set (sreg := set_registry s1 (remove_key (a_tok a) (registry s1))).
+    set (sn := notify_all sreg (a_tok a) (filter (fun w0 => negb (w0 =? a_parent a)) (a_watchers a))).
+    assert (Kn : nr s1 sn).
+    { apply nr_trans with (s2 := sreg); [apply nr_remove|apply nr_notify_all]. }
+    destruct (a_parent a =? rNone); intros H; inversion H; subst.
+    + eapply nr_trans; [exact Kn|apply nr_same; reflexivity].
+    + eapply nr_trans; [exact Kn|]. apply nr_deliver_sys.
+Qed.
+
+Lemma nr_start_instance s w self parent s' o p : start_instance roles s w self parent = (s', o, p) -> nr s s'.
+Proof.
+  unfold start_instance. destruct (handle roles s w TRD 0%nat self) as [[s1 o1] p1] eqn:E1.
+  destruct (handle roles s1 w TL 0%nat parent) as [[s2 o2] p2] eqn:E2. intros H; inversion H; subst.
+  eapply nr_trans; [eapply nr_handle; exact E1|]. eapply nr_trans; [eapply nr_handle; exact E2|].
+  destruct p2; [apply nr_refl|apply nr_upd_actor; ks].
+Qed.
+
+Lemma nr_process_user s w e s' o p : process_user roles s w e = (s', o, p) -> nr s s'.
+Proof.
+  unfold process_user. destruct (get s w) as [a|]; [|intros H; inversion H; subst; apply nr_refl].
+  destruct (st_ge_terminating (a_st a)).
+  - destruct (abyss_user s (e_snd e) (e_rcv e) (e_msg e)) as [s1 o1] eqn:E. intros H; inversion H; subst. eapply nr_abyss_user; exact E.
+  - destruct (e_msg e).
+    + apply nr_handle_q.
+    + intros H; inversion H; subst. eapply nr_trans; [|apply nr_deliver_sys]. apply nr_upd_actor; ks.
+    + intros H; inversion H; subst. apply nr_refl.
+Qed.
+
+
+Lemma nr_apply_directive s w r d snd s' o p : apply_directive roles s w r d snd = (s', o, p) -> nr s s'.
+Proof.
+  unfold apply_directive. destruct (get s w) as [a|]; [|intros H; inversion H; subst; apply nr_refl].
+  destruct d.
+  - intros H; inversion H; subst. apply nr_deliver_sys.
+  - destruct (terminate s (a_tok a) (ar_vref r) false) as [s1 o1] eqn:E1.
+    destruct (try_terminated roles s1 w snd) as [[s2 o2] p2] eqn:E2. intros H; inversion H; subst.
+    eapply nr_trans; [eapply nr_terminate; exact E1|eapply nr_try_terminated; exact E2].
+  - intros H; inversion H; subst. apply nr_deliver_sys.
+  - destruct (escalate s w r) as [[s1 o1] p1] eqn:E. intros H; inversion H; subst. eapply nr_escalate; exact E.
+  - intros H; inversion H; subst. apply nr_restart_all.
+Qed.
+Lemma nr_on_accident s w r snd s' o p : on_accident roles s w r snd = (s', o, p) -> nr s s'.
+Proof.
+  unfold on_accident. destruct (get s w) as [a|]; [|intros H; inversion H; subst; apply nr_refl].
+  destruct (ar_strategy r); [apply nr_apply_directive|].
+  destruct (sup (role_of roles a)); [apply nr_escalate|apply nr_apply_directive].
+Qed.
+Lemma nr_drop_child s w who : nr s (drop_child s w who).
+Proof. unfold drop_child. destruct (lookup who (registry s)); [apply nr_refl|apply nr_upd_actor; ks]. Qed.
+
+
+Lemma nr_try_restarted s w snd s' o p : try_restarted roles s w snd = (s', o, p) -> nr s s'.
+Proof.
+  unfold try_restarted. destruct (get s w) as [a|]; [|intros H; inversion H; subst; apply nr_refl].
+  destruct (a_children a); [|intros H; inversion H; subst; apply nr_refl].
+  destruct (a_st a); try (intros H; inversion H; subst; apply nr_refl).
+  destruct (provide s (a_tok a)) as [s0 inst] eqn:Ep.
+  assert (K0 : nr s s0) by (apply nr_same; unfold provide in Ep; inversion Ep; subst; reflexivity).
+  intros H. eapply nr_trans; [exact K0|]. revert H.
+  apply (bind_rel nr); [apply nr_trans|intros s1 o1 p1 E; eapply nr_handle; exact E|].
+  intros s1 s2 o2 p2. apply (bind_rel nr); [apply nr_trans|intros sa oa pa E; eapply nr_handle; exact E|].
+  intros sa sb ob pb H. eapply nr_trans; [|eapply nr_start_instance; exact H].
+  eapply nr_trans; [|apply nr_deliver_sys]. apply nr_upd_actor; ks.
+Qed.
+
+Lemma nr_process_sys s w e s' o p : process_sys roles s w e = (s', o, p) -> nr s s'.
+Proof.
+  unfold process_sys. destruct (get s w) as [a|]; [|intros H; inversion H; subst; apply nr_refl].
+  match goal with |- context [if ?d then _ else _] => destruct d end; [intros H; inversion H; subst; apply nr_refl|].
+  destruct (e_msg e) as [| |g|who| |r| | | | |].
+  - apply (bind_rel nr); [apply nr_trans|intros s1 o1 p1 E; eapply nr_handle; exact E|].
+    intros s1 s2 o2 p2 H; inversion H; subst. apply nr_upd_actor; ks.
+  - apply nr_handle.
+  - assert (HT : forall x,
+      (handle roles x w TT 0 (e_snd e) >>= (fun s3 =>
+         match get s3 w with
+         | None => ok s3 []
+         | Some a3 =>
+             let '(s4, o4) := terminate_all s3 (a_tok a3) (a_children a3) (g || a_graceful a3) in
+             let '(s5, o5, p) := try_terminated roles s4 w (e_snd e) in (s5, o4 ++ o5, p)
+         end)) = (s', o, p) -> nr x s').
+    { intros x. apply (bind_rel nr); [apply nr_trans|intros s1 o1 p1 E; eapply nr_handle; exact E|].
+      intros s1 s2 o2 p2. destruct (get s1 w) as [a3|]; [|intros H; inversion H; subst; apply nr_refl].
+      destruct (terminate_all s1 (a_tok a3) (a_children a3) (g || a_graceful a3)) as [s4 o4] eqn:E4.
+      destruct (try_terminated roles s4 w (e_snd e)) as [[s5 o5] p5] eqn:E5. intros H; inversion H; subst.
+      eapply nr_trans; [eapply nr_terminate_all; exact E4|eapply nr_try_terminated; exact E5]. }
+    assert (Pre : nr s (deliver_sys (upd_actor s w (w_st Terminating)) (a_tok a) (a_tok a) SResume)).
+    { apply nr_trans with (s2 := upd_actor s w (w_st Terminating)); [apply nr_upd_actor; ks|apply nr_deliver_sys]. }
+    destruct (a_st a); try (intros H; inversion H; subst; apply nr_refl); (intros H; eapply nr_trans; [exact Pre|apply HT; exact H]).
+  - intros H. apply nr_trans with (s2 := drop_child s w who); [apply nr_drop_child|]. revert H.
+    apply (bind_rel nr); [apply nr_trans|intros s1 o1 p1 E; eapply nr_handle; exact E|].
+    intros s1 s2 o2 p2. destruct (get s1 w) as [a2|]; [|intros H; inversion H; subst; apply nr_refl].
+    destruct (a_st a2); try (intros H; inversion H; subst; apply nr_refl); [apply nr_try_restarted|apply nr_try_terminated].
+  - destruct (a_st a); try (intros H; inversion H; subst; apply nr_refl).
+    assert (Pre : nr s (deliver_sys (upd_actor s w (w_st Restarting)) (a_tok a) (a_tok a) SSuspend)).
+    { apply nr_trans with (s2 := upd_actor s w (w_st Restarting)); [apply nr_upd_actor; ks|apply nr_deliver_sys]. }
+    intros H. eapply nr_trans; [exact Pre|]. revert H.
+    apply (bind_rel nr); [apply nr_trans|intros s1 o1 p1 E; eapply nr_handle; exact E|].
+    intros s1 s2 o2 p2. destruct (get s1 w) as [a2|]; [|intros H; inversion H; subst; apply nr_refl].
+    destruct (terminate_all s1 (a_tok a2) (a_children a2) false) as [s3 o3] eqn:E3.
+    destruct (try_restarted roles s3 w (e_snd e)) as [[s4 o4] p4] eqn:E4. intros H; inversion H; subst.
+    eapply nr_trans; [eapply nr_terminate_all; exact E3|eapply nr_try_restarted; exact E4].
+  - apply nr_on_accident.
+  - destruct (e_snd e =? a_parent a); [intros H; inversion H; subst; apply nr_refl|].
+    destruct (st_ge_terminating (a_st a)); intros H; inversion H; subst; [apply nr_deliver_sys|apply nr_upd_actor; ks].
+  - intros H; inversion H; subst. apply nr_upd_actor; ks.
+  - intros H; inversion H; subst. apply nr_refl.
+  - intros H; inversion H; subst. apply nr_refl.
+  - destruct (a_st a); intros H; inversion H; subst; try apply nr_refl. apply nr_deliver_sys.
+Qed.
+
+Lemma nr_run_inner s0 w m s1 o1 : Frame.run_inner roles s0 w m = (s1, o1) -> nr s0 s1.
+Proof.
+  unfold Frame.run_inner. destruct (match m with MS e => process_sys roles s0 w e | MU e => process_user roles s0 w e end) as [[sx ox] px] eqn:E.
+  assert (X : nr s0 sx) by (destruct m; [eapply nr_process_sys; exact E|eapply nr_process_user; exact E]).
+  destruct px; [|intros H; inversion H; subst; exact X]. destruct (crashed sx); [intros H; inversion H; subst; exact X|].
+  destruct (report_abnormal roles sx w) as [[sy oy] py] eqn:Ey. intros H; inversion H; subst.
+  eapply nr_trans; [exact X|eapply nr_report_abnormal; exact Ey].
+Qed.
+
+(* a step appends nothing to the mailbox of an object that is registered under no address (its own run still takes the head);
+   the object stays unregistered. No reachability premise: this holds from any state *)
+Theorem unregistered_receives_nothing_step s l s1 o v a :
+  kstep roles s l = Some (s1, o) -> get s v = Some a -> unregA s v ->
+  exists a1, get s1 v = Some a1 /\ unregA s1 v /\ seq a1 = (if consumes l v a then tl (seq a) else seq a).
+Proof.
+  assert (Fin : forall s0 sx a0, nr s0 sx -> get s0 v = Some a0 -> unregA s0 v ->
+            exists a1, get (normalize sx) v = Some a1 /\ unregA (normalize sx) v /\ seq a1 = seq a0).
+  { intros s0 sx a0 K G U. destruct (K v a0 G U) as (a' & G' & I' & Q' & U'). exists (pop1 a').
+    split; [rewrite get_normalize', G'; reflexivity|split; [exact U'|]]. rewrite seq_pop1. unfold seq, inflight_user. rewrite I', Q'. reflexivity. }
+  destruct l; cbn [kstep].
+  - (* LRun *) destruct (run_actor roles s (Z.to_nat u)) as [[sx ox]|] eqn:E; [|discriminate]. intros H; injection H as <- <-. intros G U.
+    destruct (get s (Z.to_nat u)) as [au|] eqn:Eu; [|unfold run_actor in E; rewrite Eu in E; discriminate].
+    destruct (a_inflight au) as [m|] eqn:Em; [|unfold run_actor in E; rewrite Eu, Em in E; discriminate].
+    rewrite (run_actor_inner roles s (Z.to_nat u) au m Eu Em) in E.
+    set (s0 := upd_actor s (Z.to_nat u) (w_inflight None)) in *.
+    assert (Ein : Frame.run_inner roles s0 (Z.to_nat u) m = (sx, ox)) by (inversion E; reflexivity).
+    pose proof (nr_run_inner _ _ _ _ _ Ein) as K.
+    assert (U0 : unregA s0 v) by (intros t; unfold s0; rewrite regsame_upd_actor; apply U).
+    destruct (Nat.eq_dec (Z.to_nat u) v) as [Ev|Ev].
+    + subst v. rewrite Eu in G. inversion G; subst a.
+      assert (G0 : get s0 (Z.to_nat u) = Some (w_inflight None au)) by (apply get_upd_actor_same; exact Eu).
+      destruct (Fin _ _ _ K G0 U0) as (a1 & G1 & U1 & S1). exists a1. split; [exact G1|split; [exact U1|]]. rewrite S1.
+      unfold consumes. rewrite Em. unfold seq, inflight_user. cbn [a_inflight a_userq w_inflight]. rewrite Em.
+      destruct m; [reflexivity|]. rewrite Nat.eqb_refl. reflexivity.
+    + assert (G0 : get s0 v = Some a) by (unfold s0, upd_actor; rewrite Eu; rewrite get_put_other by exact Ev; exact G).
+      destruct (Fin _ _ _ K G0 U0) as (a1 & G1 & U1 & S1). exists a1. split; [exact G1|split; [exact U1|]]. rewrite S1.
+      unfold consumes. destruct (a_inflight a) as [[?|?]|]; try reflexivity. apply Nat.eqb_neq in Ev. rewrite Ev. reflexivity.
+  - destruct (next_serial s) as [s0 k] eqn:En. destruct (deliver_user s0 t rNone (UProbe n k)) as [s2 o2] eqn:E. intros H; inversion H; subst. intros G U.
+    exact (Fin _ _ _ (nr_tell _ _ _ _ _ _ _ _ En E) G U).
+  - destruct (next_serial s) as [s0 k] eqn:En. destruct (deliver_user s0 t rGuard (UProbe n k)) as [s2 o2] eqn:E. intros H; inversion H; subst. intros G U.
+    exact (Fin _ _ _ (nr_tell _ _ _ _ _ _ _ _ En E) G U).
+  - destruct (terminate s rGuard t g) as [s2 o2] eqn:E. intros H; inversion H; subst. intros G U. exact (Fin _ _ _ (nr_terminate _ _ _ _ _ _ E) G U).
+  - destruct (spawn s guard_uid rGuard t r) as [[s2 o2] p] eqn:E. intros H; inversion H; subst. intros G U. exact (Fin _ _ _ (nr_spawn _ _ _ _ _ _ _ _ E) G U).
+  - destruct (terminate s rGuard rGuard g) as [s2 o2] eqn:E. intros H; inversion H; subst. intros G U. exact (Fin _ _ _ (nr_terminate _ _ _ _ _ _ E) G U).
+  - intros H; inversion H; subst. intros G U. exists a. auto.
+Qed.
+
+(* in every reachable state and for every step: an object that is not the registered object of its address has no user
+   message appended to its mailbox, and is still not registered afterwards *)
+Theorem unregistered_object_receives_nothing ls s os l s1 o v a :
+  krun roles kinit ls = Some (s, os) -> kstep roles s l = Some (s1, o) ->
+  get s v = Some a -> lookup (a_tok a) (registry s) <> Some v ->
+  exists a1, get s1 v = Some a1 /\ lookup (a_tok a1) (registry s1) <> Some v /\ seq a1 = (if consumes l v a then tl (seq a) else seq a).
+Proof.
+  intros Hr Hs G Hn. pose proof (RI_reachable roles ls kinit s os RI_init Hr) as Ri.
+  assert (U : unregA s v). { intros t L. destruct (Ri t v L) as (a' & G' & T'). rewrite G in G'. inversion G'; subst a'. rewrite T' in Hn. contradiction. }
+  destruct (unregistered_receives_nothing_step s l s1 o v a Hs G U) as (a1 & G1 & U1 & S1). exists a1. split; [exact G1|split; [apply U1|exact S1]].
+Qed.
+
+End NR.
